@@ -16,7 +16,6 @@ import time
 import traceback
 from types import TracebackType
 from typing import TYPE_CHECKING, Any
-import weakref
 
 import yaml
 
@@ -904,10 +903,10 @@ class EvalFuncVar:
         """Support descriptor protocol so class attributes bind to instances."""
         if obj is None:
             return self
-        # we use weak references when we bind the method calls to the instance inst;
-        # otherwise these self references cause the object to not be deleted until
-        # it is later garbage collected
-        return EvalFuncVarClassInst(self.func, self.ast_ctx, weakref.ref(obj))
+        # like a python bound method, the binding keeps the instance alive for as long as it exists
+        # itself (it is created on each attribute access and never stored on the instance, so this
+        # makes no reference cycle); a weak reference here lost the instance of P(2).get()
+        return EvalFuncVarClassInst(self.func, self.ast_ctx, obj)
 
     def __del__(self):
         """On deletion, stop any triggers for this function."""
@@ -922,19 +921,19 @@ class EvalFuncVar:
 class EvalFuncVarClassInst(EvalFuncVar):
     """Class for a callable pyscript class instance function."""
 
-    def __init__(self, func: EvalFunc, ast_ctx: "AstEval", class_inst_weak: weakref.ReferenceType) -> None:
+    def __init__(self, func: EvalFunc, ast_ctx: "AstEval", class_inst) -> None:
         """Initialize instance with given EvalFunc function."""
         super().__init__(func)
         self.ast_ctx = ast_ctx
-        self.class_inst_weak = class_inst_weak
+        self.class_inst = class_inst
 
     async def call(self, ast_ctx, *args, **kwargs):
         """Call the EvalFunc function."""
-        return await self.func.call(ast_ctx, self.class_inst_weak(), *args, **kwargs)
+        return await self.func.call(ast_ctx, self.class_inst, *args, **kwargs)
 
     async def __call__(self, *args, **kwargs):
         """Call the function using our saved ast ctx and class instance."""
-        return await self.func.call(self.ast_ctx, self.class_inst_weak(), *args, **kwargs)
+        return await self.func.call(self.ast_ctx, self.class_inst, *args, **kwargs)
 
 
 class AstEval:
